@@ -3,7 +3,8 @@ from vlib import *
 
 LEVEL = "proof"
 THEOREMS = ["register_all_inserted", "register_perm", "register_perm_needs_disjoint",
-            "canon_order_independent", "output_order_independent", "error_free_perm"]
+            "canon_order_independent", "output_order_independent", "error_free_perm",
+            "register_exact", "exclusiveSets_symm", "duplicate_verdict_perm", "duplicate_verdict_needs_symm"]
 
 
 def _replay_file(ctx):
